@@ -55,6 +55,28 @@ def id_text(width, min_len=0):
         lambda s: M.pad_text(s, width))
 
 
+SPECIAL_TEXT = ['"', ':', '": ', ': ', ' ', '{', '}', '\\', "'", ',', '[', '#', '%', '/']
+
+
+def printable_field(width, min_len=0):
+    """any printable ASCII (the properties quantify over 'all printable text of each fixed-width field'),
+    boosted at the characters that are special to JSON and to the alignment pass; first and last character
+    are not blanks so that no oracle depends on whitespace stripping"""
+    piece = st.one_of(st.sampled_from(SPECIAL_TEXT), st.sampled_from(list(PRINTABLE)), st.sampled_from(list(ALNUM)))
+
+    def build(parts):
+        s = ''.join(parts)[:width]
+        s = s.strip(' ')
+        if len(s) < min_len:
+            s = (s + 'X' * min_len)[:max(min_len, 1)]
+        return M.pad_text(s, width)
+    return st.lists(piece, min_size=0, max_size=width).map(build)
+
+
+def field_text(width, min_len=0):
+    return st.one_of(id_text(width, min_len), id_text(width, min_len), printable_field(width, min_len))
+
+
 @st.composite
 def bcd_timestamp(draw):
     # every nibble 0-9: (non-BCD nibbles are outside the claim)
@@ -171,6 +193,8 @@ def loc_code():
         return b
     return st.one_of(
         st.just(b''),
+        st.sampled_from([80, 79, 78, 77, 76, 75, 4, 1]).flatmap(
+            lambda n: st.text(st.sampled_from(ALNUM + '.'), min_size=n, max_size=n)).map(pad4),
         st.text(st.sampled_from(ALNUM + '.'), min_size=1, max_size=80).map(pad4),
         st.sampled_from(['U78DA.ND1.1234567-P0', 'Ufcs-P0-C5', 'P1']).map(pad4))
 
@@ -254,9 +278,9 @@ def src_section(draw, primary=None, kind=None, max_callouts=4, callouts=None):
 def eh_section(draw):
     s = sec_common(draw)
     sym_len = draw(st.one_of(st.just(0), st.integers(1, 80), st.sampled_from([4, 8, 40, 80, 255])))
-    sym = draw(id_text(sym_len, 1)) if sym_len else b''
-    s.update({'k': 'EH', 'mtm': draw(id_text(8)), 'sn': draw(id_text(12)), 'fw': draw(id_text(16)),
-              'subfw': draw(id_text(16)), 'r4': draw(uint(32)), 'ref': draw(bcd_timestamp()),
+    sym = draw(field_text(sym_len, 1)) if sym_len else b''
+    s.update({'k': 'EH', 'mtm': draw(field_text(8)), 'sn': draw(field_text(12)), 'fw': draw(field_text(16)),
+              'subfw': draw(field_text(16)), 'r4': draw(uint(32)), 'ref': draw(bcd_timestamp()),
               'r1': draw(byte), 'r2': draw(byte), 'r3': draw(byte), 'symptom': sym})
     return s
 
@@ -264,7 +288,7 @@ def eh_section(draw):
 @st.composite
 def mt_section(draw):
     s = sec_common(draw)
-    s.update({'k': 'MT', 'mtm': draw(id_text(8)), 'sn': draw(id_text(12))})
+    s.update({'k': 'MT', 'mtm': draw(field_text(8)), 'sn': draw(field_text(12))})
     return s
 
 
@@ -272,7 +296,7 @@ def mt_section(draw):
 def lp_section(draw, max_targets=12):
     s = sec_common(draw)
     nlen = draw(st.one_of(st.just(0), st.integers(1, 40), st.sampled_from([255, 64, 1])))
-    name = draw(id_text(nlen, 1)) if nlen else b''
+    name = draw(field_text(nlen, 1)) if nlen else b''
     nt = draw(st.one_of(st.integers(0, max_targets), st.sampled_from([0, 1, 2, 3])))
     s.update({'k': 'LP', 'pid': draw(uint(16)), 'logid': draw(uint(32)), 'name': name,
               'targets': [draw(uint(16)) for _ in range(nt)], 'pad': draw(uint(16))})
